@@ -2265,7 +2265,7 @@ class Transaction(object):
             if not remaining_fee:
                 break
             if outp.value > remaining_fee * 2:
-                outp.value -= extra_fee
+                outp.value -= remaining_fee
                 remaining_fee = 0
             elif outp.value < remaining_fee:
                 remaining_fee -= outp.value
